@@ -10,22 +10,46 @@ static int hexval(int c) {
     if (c >= 'A' && c <= 'F') return c - 'A' + 10;
     return -1;
 }
+/* Every parsed buffer is an exact-size heap block placed `hx_align_off` bytes into its allocation (env HX_ALIGN, 0..63):
+   under ASan the bytes before it are poisoned and the end is tight against the redzone, so a one-byte
+   under- / over-read or write of any input or output buffer at any alignment is a sanitizer report (C12). */
+static size_t hx_align_off;
+#if defined(__SANITIZE_ADDRESS__)
+#include <sanitizer/asan_interface.h>
+#define HX_POISON(p, n) __asan_poison_memory_region((p), (n))
+#define HX_UNPOISON(p, n) __asan_unpoison_memory_region((p), (n))
+#else
+#define HX_POISON(p, n) ((void) 0)
+#define HX_UNPOISON(p, n) ((void) 0)
+#endif
+void *hx_alloc(size_t n) {
+    unsigned char *base = (unsigned char *) malloc(hx_align_off + (n ? n : 1));
+    if (base == NULL) return NULL;
+    if (hx_align_off) HX_POISON(base, hx_align_off);
+    return base + hx_align_off;
+}
+void hx_release(void *p) {
+    if (p == NULL) return;
+    if (hx_align_off) HX_UNPOISON((unsigned char *) p - hx_align_off, hx_align_off);
+    free((unsigned char *) p - hx_align_off);
+}
+void hx_set_align(void) { const char *e = getenv("HX_ALIGN"); hx_align_off = e ? (size_t) (atoi(e) & 63) : 0; }
 int hx_hex(const char *s, buf_t *b) {
     size_t l, i;
     b->p = NULL; b->n = 0;
-    if (strcmp(s, "-") == 0) { b->p = (unsigned char *) malloc(1); return 0; }
+    if (strcmp(s, "-") == 0) { b->p = (unsigned char *) hx_alloc(0); return 0; }
     l = strlen(s);
     if (l % 2) return -1;
     b->n = l / 2;
-    b->p = (unsigned char *) malloc(b->n ? b->n : 1);
+    b->p = (unsigned char *) hx_alloc(b->n);
     for (i = 0; i < b->n; i++) {
         int h = hexval(s[2 * i]), lo = hexval(s[2 * i + 1]);
-        if (h < 0 || lo < 0) { free(b->p); b->p = NULL; return -1; }
+        if (h < 0 || lo < 0) { hx_release(b->p); b->p = NULL; return -1; }
         b->p[i] = (unsigned char) (h * 16 + lo);
     }
     return 0;
 }
-void hx_free(buf_t *b) { free(b->p); b->p = NULL; b->n = 0; }
+void hx_free(buf_t *b) { hx_release(b->p); b->p = NULL; b->n = 0; }
 void hx_put_hex(FILE *o, const unsigned char *p, size_t n) {
     static const char d[] = "0123456789abcdef";
     size_t i;
@@ -101,6 +125,7 @@ void hx_dispatch(char *line, FILE *o) {
 #ifndef HX_NO_MAIN
 int main(void) {
     char *line = NULL; size_t cap = 0; ssize_t n;
+    hx_set_align();
     if (sodium_init() < 0) { fprintf(stderr, "sodium_init failed\n"); return 3; }
     setvbuf(stdout, NULL, _IOLBF, 1 << 16);   /* line buffered: on a crash every completed op has been reported */
     while ((n = getline(&line, &cap, stdin)) > 0) hx_dispatch(line, stdout);
